@@ -50,7 +50,7 @@ theorem inv_step (op : Op) (d : DStore) (h : Inv d) : Inv (step op d).2 := by
   have hwf : True := trivial
   cases op with
   | addGraph g ig => exact inv_addGraph d g ig.close h ig.close_WF
-  | delAllGraphs => intro g; simp only [step, delAllGraphs, sub_delAll]; exact inv_empty _
+  | delAllGraphs => intro g; simp only [step, delAllGraphs]; exact inv_empty _
   | addGraphDirect g ig =>
     refine inv_put d g _ h (Store.inv_appendGraph _ _ _ (inv_empty 1) ?_)
     intro e he
